@@ -227,6 +227,43 @@ function exploreCase(cs, bundle, rep, depth2) {
       }
     }
   })
+  // direct drive of ProcGenWrapper.update with every kind of update-path tree that covers the change: `true` (whole data),
+  // coarsened (each touched top-level field marked as a whole), exact, and exact plus unrelated marks (over-approximation)
+  if (MODE === 'C06' && !failed) {
+    INITIAL.forEach((init, ii) => {
+      for (const t1 of transitions(init, names, false)) {
+        if (failed) return
+        if (t1.label.includes(' + ')) continue
+        const d1 = applyToData(init, t1)
+        const want = fresh(d1)
+        const touched = [...new Set(t1.ops.map((op) => op.path[0]))]
+        const trees = [['true', true], ['coarsened', Object.fromEntries(touched.map((f) => [f, true]))]]
+        if (t1.ops.every((op) => !op.splice && op.path.every((seg) => typeof seg === 'string'))) {
+          const exact = {}
+          for (const op of t1.ops) { let cur = exact; op.path.forEach((seg, si) => { if (cur === true) return; if (si === op.path.length - 1) cur[seg] = true; else { if (cur[seg] === undefined) cur[seg] = {}; cur = cur[seg] } }) }
+          trees.push(['exact', exact])
+          const others = [...names].filter((n) => ALT[n] && !touched.includes(n))
+          trees.push(['exact plus unrelated marks', Object.assign({ zz: true }, Object.fromEntries(others.slice(0, 2).map((n) => [n, true])), exact)])
+        }
+        for (const [tn, tree] of trees) {
+          let got
+          try {
+            const comp = D.create(bundle, MAIN, init, updateMode)
+            comp._$tmplInst.procGenWrapper.update(clone(d1), tree)
+            got = D.serialize(comp.shadowRoot)
+          } catch (e) { got = 'throws ' + String(e).slice(0, 160) }
+          rep.transitions += 1
+          rep.evaluations += 1
+          if (got !== want) {
+            failed = true
+            rep.violation(`C06|direct:${tn}|${cs.name.replace(/\|syntax.*/, '')}`, `template ${JSON.stringify(cs.__src)} (${cs.name}): ProcGenWrapper.update with the new data of ${JSON.stringify(t1.label)} from initial state ${ii} and the ${tn} update-path tree ${key(tree)} leaves ${got}, a fresh creation with the same data gives ${want}`,
+              { engine: 'c06', case: cs.name, initial: ii, direct: { ops: t1.ops, tree, kind: tn }, history: [], labels: [t1.label + ' (direct, ' + tn + ')'] })
+            break
+          }
+        }
+      }
+    })
+  }
   rep.outcome([failed, cs.name.replace(/\(.*/, ''), seen.size])
   if (seen.size > 1) rep.nontrivialCase(cs.name)
 }
@@ -517,6 +554,18 @@ function replayOne(rec) {
       } catch (e) { got = 'throws ' + String(e).slice(0, 160) }
       const want = D.serialize(D.create(bundle, MAIN, data, updateMode, extra(cdata)).shadowRoot)
       return got === want ? null : `after the history the tree is ${got}, a fresh creation gives ${want}`
+    }
+    const a = once(); const b = once()
+    return { deterministic: a === b, failure: a }
+  }
+  if (rec.direct) {
+    const once = () => {
+      const init = INITIAL[rec.initial]
+      const d1 = applyToData(init, { ops: rec.direct.ops })
+      let got
+      try { const comp = D.create(bundle, MAIN, init, updateMode); comp._$tmplInst.procGenWrapper.update(clone(d1), rec.direct.tree); got = D.serialize(comp.shadowRoot) } catch (e) { got = 'throws ' + String(e).slice(0, 160) }
+      const want = D.serialize(D.create(bundle, MAIN, d1, updateMode).shadowRoot)
+      return got === want ? null : `after the direct update the tree is ${got}, a fresh creation gives ${want}`
     }
     const a = once(); const b = once()
     return { deterministic: a === b, failure: a }
